@@ -33,6 +33,8 @@ M = [
  ('C06-m5', 'C06', 'cedar-policy/src/proto/ast.rs', '                ast::Expr::binary_app(\n                    ast::BinaryOp::from(pbop),\n                    ast::Expr::try_from(left)?,\n                    ast::Expr::try_from(right)?,', '                ast::Expr::binary_app(\n                    ast::BinaryOp::from(pbop),\n                    ast::Expr::try_from(right)?,\n                    ast::Expr::try_from(left)?,'),
  ('C06-m6', 'C06', 'cedar-policy/src/proto/policy.rs', '            models::principal_or_resource_constraint::Data::Eq(msg) => Ok(\n                ast::PrincipalOrResourceConstraint::Eq(', '            models::principal_or_resource_constraint::Data::Eq(msg) => Ok(\n                ast::PrincipalOrResourceConstraint::In('),
  ('C06-m7', 'C06', 'cedar-policy/src/proto/ast.rs', '                ast::Expr::ite(\n                    ast::Expr::try_from(test_expr)?,\n                    ast::Expr::try_from(then_expr)?,\n                    ast::Expr::try_from(else_expr)?,', '                ast::Expr::ite(\n                    ast::Expr::try_from(test_expr)?,\n                    ast::Expr::try_from(else_expr)?,\n                    ast::Expr::try_from(then_expr)?,'),
+ ('C06-m8', 'C06', 'cedar-policy/src/proto/policy.rs', '            ast::PrincipalConstraint::try_from(\n                v.principal_constraint\n                    .ok_or_else(|| ProtobufConversionError::missing("principal_constraint"))?,', '            ast::PrincipalConstraint::try_from(\n                v.resource_constraint.clone()\n                    .ok_or_else(|| ProtobufConversionError::missing("principal_constraint"))?,'),
+ ('C06-m9', 'C06', 'cedar-policy/src/proto/policy.rs', '            resource_euid: v\n                .env()\n                .get(&ast::SlotId::resource())', '            resource_euid: v\n                .env()\n                .get(&ast::SlotId::principal())'),
  ('C15-m1', 'C15', CORE + 'batched_evaluator.rs', '            if !entities.contains_entity(&uid) {\n                to_load.insert(uid);\n            }', '            if !entities.contains_entity(&uid) && to_load.is_empty() {\n                to_load.insert(uid);\n            }'),
  ('C15-m2', 'C15', CORE + 'batched_evaluator.rs', '    for _i in 0..max_iters {', '    for _i in 0..=max_iters {'),
  ('C15-m3', 'C15', CORE + 'batched_evaluator.rs', '                None => {\n                    entities.add_entity_trusted(', '                None if false => {\n                    entities.add_entity_trusted('),
